@@ -4,6 +4,8 @@ import (
 	"bufio"
 	"os"
 	"syscall"
+
+	"github.com/pilosa/pilosa/logger"
 )
 
 // H09c: process-kill model for the key-translation log. The store is opened
@@ -17,7 +19,7 @@ import (
 
 // a long index name, so that one log entry exceeds the 16-byte write buffer
 // and an append takes several write syscalls
-const verifCrashIndex = "index-of-the-crash-model"
+var verifCrashIndex = "index-of-the-crash-model"
 
 type verifCutFile struct {
 	f    *os.File
@@ -37,6 +39,7 @@ func verifOpenTranslate(path string) (*TranslateFile, *verifCutFile, error) {
 		Path: path, mapSize: 4096,
 		cols: make(map[string]*index), rows: make(map[fieldKey]*index),
 		writeNotify: make(chan struct{}), closing: make(chan struct{}),
+		logger: logger.NopLogger,
 	}
 	var err error
 	if s.file, err = os.OpenFile(path, os.O_RDWR|os.O_CREATE|os.O_APPEND, 0666); err != nil {
@@ -55,6 +58,11 @@ func VerifH09TranslateCrash() {
 	dir := verifTempDir()
 	defer verifCleanTemp(dir)
 	_ = os.MkdirAll(dir, 0777)
+	// the first write of an append ends 16 bytes into the entry (the rest goes
+	// out in one more write); the index name's length (8..15) moves that cut
+	// over the entry's item boundaries (before the field name, the key count,
+	// an id, a key length, the key bytes) and into the middle of items
+	verifCrashIndex = "index-of-the-crash-model"[:8+verifChoice("pad", verifBound("pads", 8))]
 	s, cw, err := verifOpenTranslate(dir + "/keys")
 	verifAssert(err == nil, "translate store opens")
 	if err != nil {
